@@ -20,6 +20,7 @@ import threading
 from vf import asanproc
 
 KNOWN_FD = 'C19:mjd_stepFD-autoreset-inside-open-stack-frame'
+KNOWN_TRN = 'C19:mj_transmission-moment-overrun-on-nonfinite-state'
 
 
 def main(ck):
@@ -75,6 +76,10 @@ def main(ck):
         if job['family'] == 'pipe' and 'mjd_stepFD' in (res['report'] or '') and res['kind'] == 'use-after-poison':
           fp = KNOWN_FD
           ck.case(nontrivial=True, key=('pipe-fd-crash', job['variant'], job['shard']), labels=['pipe:fd-reset-inside-frame'])
+        if job['family'] == 'pipe' and ' in mj_transmission ' in (res['report'] or '') and \
+            res['kind'] in ('use-after-poison', 'heap-buffer-overflow'):
+          fp = KNOWN_TRN       # the model went unstable: pipeline call on a non-finite state
+          ck.case(nontrivial=True, key=('pipe-trn-crash', job['variant'], job['shard']), labels=['pipe:transmission-overrun'])
         ck.violation('worker process died (%s, rc=%s) in %s @ %s\n%s' % (
             res['kind'], res['rc'], job['family'], res['frame'], (res['report'] or res['stderr'])[:3000]),
             dict(job=job, journal=res.get('journal'), report=res['report'][:6000]),
